@@ -147,3 +147,37 @@ import PsVerif
 #print axioms PsVerif.foldl_sq_zero
 #print axioms PsVerif.foldl_foldl_sq_zero
 #print axioms PsVerif.sqErr_self
+-- C18
+#print axioms PsVerif.run_depends_on_gram_only
+#print axioms PsVerif.gram_mul_orthogonal
+#print axioms PsVerif.row_dot_mul_orthogonal
+#print axioms PsVerif.gram_eq_of_dots
+#print axioms PsVerif.candScores_argmax_sim
+#print axioms PsVerif.greedyStep_sim
+#print axioms PsVerif.greedy_simulation
+#print axioms PsVerif.RMat.get_scale
+#print axioms PsVerif.RMat.scale_ofFn
+#print axioms PsVerif.schur_scale
+#print axioms PsVerif.scale_invariant
+-- C19
+#print axioms PsVerif.sspor_ctor_spec
+#print axioms PsVerif.sspor_set_invalid
+#print axioms PsVerif.sspor_set_unfitted
+#print axioms PsVerif.sspor_selected_unfitted
+#print axioms PsVerif.sspor_update_invalid
+#print axioms PsVerif.sspor_update_needs_data
+#print axioms PsVerif.sspor_update_too_many
+#print axioms PsVerif.sspoc_update_invalid
+#print axioms PsVerif.sspoc_update_neither
+#print axioms PsVerif.sspoc_update_unfitted
+#print axioms PsVerif.basisCtor_spec
+#print axioms PsVerif.basisRep_spec
+#print axioms PsVerif.predict_guard_spec
+#print axioms PsVerif.full_state_guard_spec
+#print axioms PsVerif.ccqr_costs_spec
+#print axioms PsVerif.gqr_option_spec
+#print axioms PsVerif.box_contradictory
+-- C20
+#print axioms PsVerif.analysis_sound
+#print axioms PsVerif.check_rejects_write_through_view
+#print axioms PsVerif.check_accepts_copy
